@@ -174,6 +174,33 @@ def judge(text: str, orc) -> dict | None:
         return {"kind": "accepts-invalid", "expected": "rejected by the meta-grammar", "got": "Parser"}
     if p is None:
         return {"kind": "rejects-valid", "expected": "accepted by the meta-grammar", "got": err}
+    first = compare(p, den)
+    if first is not None:
+        return first
+    # history: the same text loaded with the default optimizer in between must leave both unoptimised parsers as the text denotes
+    try:
+        Parser.from_grammar(text)
+    except Exception:  # noqa: BLE001
+        return None  # what the optimizer may raise is C11's and C02's business
+    for label, q in (("the parser built before an optimised load of the same text", p), ("a parser built after an optimised load of the same text", None)):
+        try:
+            q = q or Parser.from_grammar(text, optimizer=None)
+            again = compare(q, den)
+        except common.HarnessError as exc:
+            again = {"kind": "struct:expression", "expected": "the structure the text denotes", "got": str(exc)[:200]}
+        except Exception as exc:  # noqa: BLE001
+            again = {"kind": "rejects-valid", "expected": "accepted by the meta-grammar", "got": f"{type(exc).__name__}: {str(exc)[:60]}"}
+        if again is not None:
+            again["kind"] += ":after-optimised-load"
+            again["history"] = label
+            return again
+    return None
+
+
+def compare(p, den) -> dict | None:
+    """The rules of parser p against the denotation (rules, grammar doc) read off the meta-grammar's parse tree."""
+    from pest.grammar.rule import BuiltInRule, modifier_to_str
+
     rules, gdoc = den
     names = [r[0] for r in rules]
     if len(set(names)) != len(names):
@@ -354,7 +381,7 @@ def run(tier: str) -> int:
                 f"(f) comment shapes: every string of up to {b['comment_len']} characters over {{/,*,x}} placed before the first rule and inside a rule body; (g) expression sites: every sequence of up to {b['site_k']} tokens over {SITE_TOKENS} "
                 "inside a rule body, a group, a PUSH argument and nestings of those. "
                 "Oracle: from_grammar(text, optimizer=None) returns a Parser iff the meta-grammar, executed by the reference model, accepts the text; if both accept, rule names, modifiers, rule and grammar docs and the expression structure "
-                "(modulo ~/| associativity, Group nodes and tag position inside a term) equal the structure read off the meta-grammar's parse tree. states = texts judged; a text is non-trivial when the meta-grammar accepts it",
+                "(modulo ~/| associativity, Group nodes and tag position inside a term) equal the structure read off the meta-grammar's parse tree. History: for every accepted text the same text is then loaded with the default optimizer, after which the first parser and a newly built optimizer=None parser must both still hold the denoted structure. states = texts judged; a text is non-trivial when the meta-grammar accepts it",
         "samples": [{"text": t} for t in common.pick_samples(EXTRA_TEXTS, 5)],
         "exhaustive": True,
         "bounds": b,
